@@ -242,16 +242,33 @@ def gen(rng, tier):
         bad = rng.choice(ROW_KINDS_BAD) if maybe(rng, 0.6) else None
         if ov in ("s2", "s3") and bad == "neg_small" and not maybe(rng, 0.15): bad = "neg"
         out.append("isprob %s %d %d %s" % (ov, rows, cols, table(rng, 1, rows, cols, bad)))
-    # -- AMDP discretisations of small valid POMDPs (S >= 2: for S = 1 the library divides by log(1) = 0)
-    for _ in range(max(8, n // 25)):
-        S = rng.choice([2, 2, 3]); A = rng.choice([1, 2]); O = rng.choice([1, 2, 3])
-        ob = table(rng, S, A, O, None) if False else None
+    # -- AMDP discretisations of small valid POMDPs (S >= 2: for S = 1 the library divides by log(1) = 0).
+    #    Regimes of the observation function: "dy" dyadic rows; "few" 4..12 observations of probability in
+    #    (0, 1e-6] each (skipped by the accumulation loop one by one, together well above 1e-6); "many" 1100..2000 such
+    #    observations (together 1e-3..2e-3): the derived rows must still be normalised by the accumulated mass.
+    for i in range(max(10, n // 25)):
+        S = rng.choice([2, 2, 3]); A = rng.choice([1, 2])
+        regime = "many" if i < 2 else rng.choice(["dy", "dy", "few", "few"])
         def dyt(n1, n2, n3):
             flat = [x for _ in range(n1 * n2) for x in dyadic_row(rng, n3)]
             return "%d %s" % (len(flat), " ".join(fx(x) for x in flat))
+        if regime == "dy":
+            O = rng.choice([1, 2, 3]); obs = dyt(S, A, O)
+        else:
+            ntiny = rng.randint(4, 12) if regime == "few" else rng.randint(1100, 2000)
+            nbig = rng.choice([1, 2]); O = nbig + ntiny
+            flat = []
+            for _ in range(S * A):
+                tiny = [rng.choice([2.0 ** -20, 2.0 ** -21, EPS9]) for _ in range(ntiny)]
+                rest = 1.0 - sum(tiny)
+                big = [rest] if nbig == 1 else [rest * 0.25, rest * 0.75]
+                flat += big + tiny
+            obs = "%d %s" % (len(flat), " ".join(fx(x) for x in flat))
+        variant = rng.choice(["d", "s", "ds", "ss"]) if regime != "many" else ["d", "ss"][i % 2]
+        nb = rng.choice([1, 2, 5, 20, 60]) if regime != "many" else rng.choice([3, 8])
         out.append("amdp %s %d %d %d %d %s %d %d %s %s %s" % (
-            rng.choice(["d", "d", "s"]), rng.randrange(1, 10 ** 6), rng.choice([1, 2, 5, 20, 60]), rng.choice([1, 2, 3, 4]),
-            O, dyt(S, A, O), S, A, rng.choice(["1/2", "3/4", "1"]), dyt(S, A, S),
+            variant, rng.randrange(1, 10 ** 6), nb, rng.choice([1, 2, 3, 4]),
+            O, obs, S, A, rng.choice(["1/2", "3/4", "1"]), dyt(S, A, S),
             "%d %s" % (S * A * S, " ".join(str(rng.randint(-4, 8)) for _ in range(S * A * S)))))
     # -- converting constructors from arbitrary sources (generic wrapper / NO_CHECK library models)
     out += gen_conversions(rng, tier != "quick")
